@@ -293,6 +293,16 @@ func run(tier string, shard, nsh int, res *ev.Result) {
 				eval(Case{Legal: false, FC: 16, RTU: rtu, Unit: 8, TID: 0x1010, Addr: 1, Qty: uint16(q), N: n, Pattern: "pos"}, res, lc)
 			}
 		})
+		add(func(lc *local) { // data values (not positions): every 16-bit value as register content / as a 16-coil pattern
+			for v := 0; v < 65536; v++ {
+				eval(Case{Legal: true, FC: 16, RTU: rtu, Unit: 8, TID: 0x1010, Addr: 0x20, Qty: 1, N: 2, Pattern: "word", K: v}, res, lc)
+				eval(Case{Legal: true, FC: 15, RTU: rtu, Unit: 7, TID: 0x0F0F, Addr: 0x13, Qty: 16, N: 2, Pattern: "word", K: v}, res, lc)
+				if v%32 == 0 || v < 300 || v > 65200 {
+					eval(Case{Legal: true, FC: 16, RTU: rtu, Unit: 8, TID: 0x1010, Addr: 0x20, Qty: 3, N: 6, Pattern: "word", K: v}, res, lc)
+					eval(Case{Legal: true, FC: 23, RTU: rtu, Unit: 10, TID: 0x1717, Addr: 3, Qty: 2, WAddr: 14, WQty: 2, N: 4, Pattern: "word", K: v}, res, lc)
+				}
+			}
+		})
 		add(func(lc *local) { // FC23 legal product read 1..125 x write 1..121
 			for rq := 1; rq <= spec.MaxRWReadRegs; rq++ {
 				ws := []int{1, 2, 60, 120, 121}
